@@ -1,6 +1,7 @@
 package props
 
 import (
+	"go/constant"
 	"fmt"
 	"go/ast"
 	"go/token"
@@ -366,4 +367,70 @@ func unwrapFunc(p *load.Program, rel string, fd *ast.FuncDecl) *ast.FuncDecl {
 		fd = next
 	}
 	return fd
+}
+
+// ordCmp reads an ordered comparison in either direction: big > small (strict) or big >= small.
+func ordCmp(e ast.Expr) (big, small ast.Expr, strict, ok bool) {
+	be, isBin := ast.Unparen(e).(*ast.BinaryExpr)
+	if !isBin {
+		return nil, nil, false, false
+	}
+	switch be.Op {
+	case token.GTR:
+		return be.X, be.Y, true, true
+	case token.GEQ:
+		return be.X, be.Y, false, true
+	case token.LSS:
+		return be.Y, be.X, true, true
+	case token.LEQ:
+		return be.Y, be.X, false, true
+	}
+	return nil, nil, false, false
+}
+
+// addedConst recognises the statements that add a constant to a variable: x += K, x -= K, x++, x--,
+// x = x + K, x = K + x, x = x - K.
+func addedConst(info *types.Info, s ast.Stmt) (target ast.Expr, k int64, ok bool) {
+	val := func(e ast.Expr) (int64, bool) {
+		if tv, ok := info.Types[e]; ok && tv.Value != nil {
+			if v, exact := constant.Int64Val(constant.ToInt(tv.Value)); exact {
+				return v, true
+			}
+		}
+		return 0, false
+	}
+	switch t := s.(type) {
+	case *ast.IncDecStmt:
+		if t.Tok == token.INC {
+			return t.X, 1, true
+		}
+		return t.X, -1, true
+	case *ast.AssignStmt:
+		if len(t.Lhs) != 1 || len(t.Rhs) != 1 {
+			return nil, 0, false
+		}
+		switch t.Tok {
+		case token.ADD_ASSIGN, token.SUB_ASSIGN:
+			if v, ok := val(t.Rhs[0]); ok {
+				if t.Tok == token.SUB_ASSIGN {
+					v = -v
+				}
+				return t.Lhs[0], v, true
+			}
+		case token.ASSIGN:
+			if be, ok := ast.Unparen(t.Rhs[0]).(*ast.BinaryExpr); ok && (be.Op == token.ADD || be.Op == token.SUB) {
+				l := types.ExprString(t.Lhs[0])
+				if v, ok := val(be.Y); ok && types.ExprString(ast.Unparen(be.X)) == l {
+					if be.Op == token.SUB {
+						v = -v
+					}
+					return t.Lhs[0], v, true
+				}
+				if v, ok := val(be.X); ok && be.Op == token.ADD && types.ExprString(ast.Unparen(be.Y)) == l {
+					return t.Lhs[0], v, true
+				}
+			}
+		}
+	}
+	return nil, 0, false
 }
